@@ -7,7 +7,14 @@
 tree=$1; tier=$2; shift 2
 src="$(cd "$(dirname "$0")/.." && pwd)"
 dst=$(mktemp -d /tmp/vseed.XXXXXX)
-rsync -a --exclude harness/bin --exclude harness/scratch --exclude replay --exclude .git --exclude evidence "$src/" "$dst/"
+# When the tag seedtest-pin exists the checks are taken from that commit (so that a long batch of
+# evaluations is not disturbed by edits in the working tree); otherwise from the working tree.
+if git -C "$src" rev-parse -q --verify refs/tags/seedtest-pin >/dev/null 2>&1; then
+  git -C "$src" archive seedtest-pin | tar -x -C "$dst"
+  rm -rf "$dst/evidence" "$dst/replay"
+else
+  rsync -a --exclude harness/bin --exclude harness/scratch --exclude replay --exclude .git --exclude evidence "$src/" "$dst/"
+fi
 sed -i "s#=> /repo#=> $tree#" "$dst/harness/go.mod"
 rc=0
 for id in "$@"; do
